@@ -10,12 +10,23 @@ Case (drivers "direct" and "torstate" take the same case):
              {"op": "err", "name": i, "exp": <offset s>, "form": "new"|"mid"}
              {"op": "adv", "dt": <seconds >= 1>}
              {"op": "near", "k": n, "delta": d}     advance to (k-th pending expiry of the model) + d
-            ]}
+             {"op": "listen", "j": l}               AddrMap.add_listener(listener l)
+            ],
+   "listeners": [{"behav": [b, ...]}, ...]}   optional; listener 0 is registered from the start.  b = what the
+           listener does from INSIDE its 1st, 2nd, ... call (addrmap_added or addrmap_expired), then "ok":
+           "ok" | {"do": "map", "name": i|null, "addr": j, "exp": .., "form": ..} | {"do": "err", "name": i|null, "exp": ..}
+           | {"do": "add", "j": l};  name null = the name the call is about.  Every call, whatever b is,
+           first looks up every name and address with find() and is judged on what comes back.
 "exp" is relative to the whole second of 'now' when the line is sent; null = NEVER.
 
 direct  : lines go to AddrMap.update(); "boot" lines are fed first, as update() calls.
 torstate: a real TorState is bootstrapped over a control-port pipe; "boot" is the answer to
           GETINFO address-mappings/all, every other line arrives as a 650 ADDRMAP event.
+
+A line fed from inside a callback goes the same route as the driver's other lines (AddrMap.update, or a
+650 ADDRMAP event on the TorState pipe; if the pipe is in the middle of delivering bytes the line arrives
+right after the current event, as it would on a socket).  The reference map is kept call by call, so such
+a line is simply the next event.
 
 Time: one twisted.internet.task.Clock is the AddrMap scheduler; its seconds() is the POSIX time.
 txtorcon.addrmap's module attribute `datetime` is replaced per case by a stand-in whose
@@ -38,9 +49,12 @@ RULE = ("Hypothesis-generated histories over 3 names x 4 addresses (2 IPv4, a br
         "GETINFO address-mappings/all and of old Tors on a UTC host, NEVER, <error> with error=yes) with expiry "
         "offsets from -1 h to +10 days, or a clock advance (1 s .. 11 days, or 'to d seconds before/after the "
         "k-th pending expiry'); fed through AddrMap.update and through a bootstrapped TorState (GETINFO + 650 "
-        "ADDRMAP events); after every step find() of every name and address and the listener log are compared "
+        "ADDRMAP events); up to 3 listeners whose calls, per call, may feed a further line (timed/NEVER/<error>, "
+        "same or other name) or add a listener from inside addrmap_added/addrmap_expired; after every step AND "
+        "inside every listener call find() of every name and address, and the calls themselves, are compared "
         "with a reference map name -> (address, expiry|never) under a +-1 s guard band.  A two-event grid "
-        "(first mapping x follow-up event x observation instants around every expiry) is enumerated as well.  "
+        "(first mapping x follow-up event x observation instants around every expiry) and a re-entrancy grid "
+        "(ending by timer/<error> x line fed from inside added/expired x second listener) are enumerated as well.  "
         "Non-trivial = >=2 mapping lines and at least one timed mapping observed both alive and, later, "
         "expired; distinct = distinct canonical JSON of the whole case.")
 ASSUMPTIONS = [
@@ -61,6 +75,19 @@ ASSUMPTIONS = [
     "uses or used that address during the mapping's life; after an address change or with shared addresses it may fail "
     "or return any alive mapping, but whatever find() returns must be the current, unexpired mapping of the returned name",
     "order of 'expired' calls for different names inside one clock advance is not judged; not-found is KeyError or None",
+    "inside addrmap_expired(name) the name, and under the address latitude above its address, must already be "
+    "unresolvable; inside addrmap_added the new mapping may or may not be resolvable yet (but nothing else may be "
+    "returned for it); while a clock advance is still running, names whose expiry falls inside it are not judged",
+    "a line fed from inside a callback is an ordinary later event (mapped again, one 'added', its own expiry); it is fed "
+    "only where the outer line's effect on that name is complete under every accepted reading - inside 'expired' fired "
+    "by the timer or by an <error> drop of a held name, inside 'added' of a mapping that is certainly alive, or for a "
+    "different name - otherwise it is skipped and counted; nesting is cut at three lines deep",
+    "on the TorState route a line sent while the connection is delivering bytes is read after the current event",
+    "AddrMap has no public way to remove a listener, so listeners are only added (by a step or from inside a callback; "
+    "adding one twice must not double its calls); every listener added before a notification started hears it exactly "
+    "once; one added from inside a callback is not counted (and does not act) before the step that was running is over, "
+    "because its first call cannot be attributed to a notification unambiguously; the order among listeners is not "
+    "judged, and the reference map follows the notification itself, not what a later-called listener pieces together",
 ]
 
 NAMES = ["www.example.com", "mail.example.org", "cdn7.test.invalid"]
@@ -127,16 +154,18 @@ class _FakeDatetimeModule(object):
 
 
 class _World(object):
-    """Owns the real objects for one case."""
+    """Owns the real objects for one case.  Every listener callback is handed to ``sink``."""
 
-    def __init__(self, case, kind):
+    def __init__(self, case, kind, sink, nlisteners):
         from twisted.internet import task
         self.kind = kind
         self.case = case
         self.clock = task.Clock()
         self.clock.rightNow = float(case["epoch"]) + case.get("frac", 0) / 1e6
         self.zone = case.get("zone", 0)
-        self.events = []            # ("added", name, ip-text) | ("expired", name)
+        self.sink = sink
+        self.nlisteners = nlisteners
+        self.listeners = []
         self.am = None
         self.pipe = None
         self._saved = None
@@ -153,24 +182,27 @@ class _World(object):
         self._mod = mod
         self._saved = mod.datetime
         mod.datetime = _FakeDatetimeModule(self.clock, self.zone)
-        world = self
+        sink = self.sink
 
         @implementer(IAddrListener)
         class Listener(object):
+            def __init__(self, j):
+                self.j = j
+
             def addrmap_added(self, addr):
-                world.events.append(("added", getattr(addr, "name", None), str(getattr(addr, "ip", None))))
+                sink(self.j, "A", getattr(addr, "name", None), str(getattr(addr, "ip", None)))
 
             def addrmap_expired(self, name):
-                world.events.append(("expired", name))
+                sink(self.j, "X", name, None)
 
-        self.listener = Listener()
+        self.listeners = [Listener(j) for j in range(self.nlisteners)]
         if self.kind == "direct":
             self.am = mod.AddrMap()
             if not hasattr(self.am, "scheduler"):
                 raise HarnessError("AddrMap.scheduler is gone")
             self.am.scheduler = IReactorTime(self.clock)
-            self.am.add_listener(self.listener)
-            return [self.feed(ln) for ln in boot_lines]
+            self.am.add_listener(self.listeners[0])
+            return []
         # a real TorState behind a control-port pipe
         from txtorcon import TorState
         from vlib.harness import bootstrapped_pipe
@@ -184,7 +216,7 @@ class _World(object):
         if not hasattr(self.am, "scheduler"):
             raise HarnessError("AddrMap.scheduler is gone")
         self.am.scheduler = IReactorTime(self.clock)
-        self.am.add_listener(self.listener)
+        self.am.add_listener(self.listeners[0])
         done = []
         state.post_bootstrap.addCallbacks(lambda s: done.append("ok"), lambda f: done.append(f))
         self.pipe.pump()
@@ -203,6 +235,11 @@ class _World(object):
             self._mod.datetime = self._saved
 
     # -- actions
+    def transport_busy(self):
+        """True while the control connection is in the middle of delivering bytes: a line 'sent by Tor'
+        now is read only after the current event has been dispatched."""
+        return self.pipe is not None and bool(getattr(self.pipe, "_pumping", False))
+
     def feed(self, line):
         """Returns the exception that escaped, or None."""
         if self.kind == "direct":
@@ -222,6 +259,13 @@ class _World(object):
             ev = lc.errors[0]
             f = ev.get("failure")
             return f.value if f is not None else RuntimeError(repr(ev.get("message")))
+        return None
+
+    def add_listener(self, j):
+        try:
+            self.am.add_listener(self.listeners[j])
+        except Exception as e:
+            return e
         return None
 
     def advance(self, dt):
@@ -260,38 +304,7 @@ HAZ_EXPLAINS = {
     "expiry-delay-arithmetic": {"expired-while-alive", "live-name-not-found", "expired-not-notified",
                                 "expired-name-still-found"},
 }
-
-
-class _Model(object):
-    def __init__(self, res):
-        self.res = res
-        self.m = [None] * len(NAMES)        # name index -> {"addr","E","turn","changed","seen_live","created"} | None
-        self.heard = [False] * len(NAMES)   # what a listener mirroring added/expired believes
-        self.haz = [set() for _ in NAMES]
-        self.contested = set()              # addresses that two names used at overlapping times
-        self.lifecycles = 0
-        self.map_lines = 0
-
-    # guard band
-    @staticmethod
-    def def_live(mm, now):
-        return mm["E"] is None or now <= mm["E"] - 1
-
-    @staticmethod
-    def def_expired(mm, now):
-        return mm["E"] is not None and now >= mm["E"] + 1
-
-    def tag(self, i, symptom):
-        for h in HAZ_ORDER:
-            if h in self.haz[i] and symptom in HAZ_EXPLAINS[h]:
-                return h
-        return symptom
-
-    def bad(self, i, symptom, detail):
-        tag = self.tag(i, symptom)
-        if tag != symptom:
-            detail = "%s: %s (this name's history has: %s)" % (symptom, detail, sorted(self.haz[i]))
-        self.res.bad(tag, detail)
+MAX_DEPTH = 4       # step frame + up to three lines fed from inside callbacks
 
 
 def _name_index(name):
@@ -301,397 +314,683 @@ def _name_index(name):
         return None
 
 
-def _split_events(events):
-    """events -> {name index: [("A", ip) | ("X",) ...]}, plus events that name no known name."""
-    per, odd = {}, []
-    for ev in events:
-        i = _name_index(ev[1])
+def def_live(mm, now):
+    return mm["E"] is None or now <= mm["E"] - 1
+
+
+def def_expired(mm, now):
+    return mm["E"] is not None and now >= mm["E"] + 1
+
+
+def _exp_text(mm):
+    return "never" if mm is None or mm["E"] is None else _stamp(mm["E"])
+
+
+class _Frame(object):
+    """One line being fed (map/err), one clock advance (adv) or the TorState bootstrap (boot).
+    Listener calls are attributed to the innermost frame; a line fed from inside a callback
+    opens a nested frame."""
+
+    def __init__(self, op, why, subj=None):
+        self.op = op
+        self.why = why
+        self.subj = subj
+        self.busy = op in ("map", "err")    # subject's state is mid-update: not judged, no nested line for it
+        self.round = None                   # [key, listeners registered at its start, listeners called]
+        self.old = self.new = None
+        self.u_old = self.u_new = self.h0 = False
+        self.seen_a = False
+        self.last = None
+        self.boot = {}                      # boot frame: name index -> {"new", "seen_a", "last"}
+
+
+class _Run(object):
+    """Interprets one case: drives the world, keeps the reference map *as the listener calls happen*
+    (so that what a callback sees and does is judged at that moment) and records discrepancies."""
+
+    def __init__(self, case, kind):
+        self.case = case
+        self.kind = kind
+        self.res = Result()
+        self.specs = case.get("listeners") or [{"behav": []}]
+        self.world = _World(case, kind, self.on_call, len(self.specs))
+        self.m = [None] * len(NAMES)        # name -> {"addr","E","turn","changed","seen_live","created"} | None
+        self.heard = [False] * len(NAMES)   # what a listener present from the start believes
+        self.haz = [set() for _ in NAMES]
+        self.contested = set()              # addresses that two names used at overlapping times
+        self.lifecycles = 0
+        self.map_lines = 0
+        self.frames = []
+        self.deferred = []
+        self.registered = [0]
+        self.probation = []                 # added from inside a callback: counted from the next step on
+        self.calls = [0] * len(self.specs)
+        self.in_advance = 0
+
+    # ---------------------------------------------------------------- reporting
+    def tag(self, i, symptom):
+        for h in HAZ_ORDER:
+            if h in self.haz[i] and symptom in HAZ_EXPLAINS[h]:
+                return h
+        return symptom
+
+    def bad(self, i, symptom, detail):
         if i is None:
-            odd.append(ev)
-            continue
-        per.setdefault(i, []).append(("A", ev[2]) if ev[0] == "added" else ("X",))
-    return per, odd
-
-
-def _generic_events(model, i, evs, now, why):
-    """Listener calls about a name that is not the subject of the current line: only an
-    'expired' of a heard mapping that is no longer certainly alive is legal."""
-    for ev in evs:
-        mm = model.m[i]
-        if ev[0] == "A":
-            model.bad(i, "unexpected-added", "%s: addrmap_added(%s -> %s) although no line about it" % (
-                why, NAMES[i], ev[1]))
+            self.res.bad(symptom, detail)
             return
-        if not model.heard[i]:
-            model.bad(i, "expired-without-added", "%s: addrmap_expired(%s) although the listener never heard it "
-                      "added (or already heard it expire)" % (why, NAMES[i]))
+        tag = self.tag(i, symptom)
+        if tag != symptom:
+            detail = "%s: %s (this name's history has: %s)" % (symptom, detail, sorted(self.haz[i]))
+        self.res.bad(tag, detail)
+
+    def end_mapping(self, i):
+        mm = self.m[i]
+        if mm is not None and mm.get("seen_live") and mm["E"] is not None:
+            self.lifecycles += 1
+        self.m[i] = None
+
+    # ---------------------------------------------------------------- listener calls
+    def busy_names(self):
+        names, addrs = set(), set()
+        for fr in self.frames:
+            if fr.op in ("map", "err") and fr.busy:
+                names.add(fr.subj)
+                for rec in (fr.old, fr.new):
+                    if rec is not None:
+                        addrs.add(rec["addr"])
+            elif fr.op == "boot":
+                for i, b in fr.boot.items():
+                    names.add(i)
+                    addrs.add(b["new"]["addr"])
+        return names, addrs
+
+    def on_call(self, j, kind, name, ip):
+        """Called from inside addrmap_added / addrmap_expired of listener j."""
+        if not self.res.ok:
             return
-        if mm is None or model.def_live(mm, now):
-            model.bad(i, "expired-while-alive", "%s: addrmap_expired(%s) at %s but the latest mapping expires %s" % (
-                why, NAMES[i], _stamp(now), "never" if mm is None or mm["E"] is None else _stamp(mm["E"])))
+        i = _name_index(name)
+        if i is None:
+            self.res.bad("listener-odd-argument", "listener %d: %s(%r)" % (j, kind, name))
             return
-        model.heard[i] = False
-        _end_mapping(model, i, now)
-
-
-def _end_mapping(model, i, now):
-    mm = model.m[i]
-    if mm is not None and mm.get("seen_live") and mm["E"] is not None:
-        model.lifecycles += 1
-    model.m[i] = None
-
-
-def _observe(model, world, res, why):
-    """After every step: find() of every name and every address against the model."""
-    now = world.now()
-    for i, name in enumerate(NAMES):
-        mm = model.m[i]
-        got = world.find(name)
-        if got is not None and got[0] == "raised":
-            model.bad(i, "find-raised", "%s: find(%r) raised %s" % (why, name, got[1]))
-            continue
-        if mm is None:
-            if got is not None:
-                model.bad(i, "dropped-name-still-found", "%s: find(%r) returns %r although its latest mapping "
-                          "was dropped/expired" % (why, name, got[1:]))
-        elif model.def_live(mm, now):
-            if not model.heard[i]:
-                model.bad(i, "added-missing", "%s: %r is mapped but the listener was never told (or was told "
-                          "it expired)" % (why, name))
-            elif got is None:
-                model.bad(i, "live-name-not-found", "%s: find(%r) fails at %s although its latest mapping "
-                          "(-> %s) expires %s" % (why, name, _stamp(now), ADDRS[mm["addr"]],
-                                                  "never" if mm["E"] is None else _stamp(mm["E"])))
-            elif got[1] != name or got[2] != ADDRS[mm["addr"]]:
-                model.bad(i, "wrong-mapping-returned", "%s: find(%r) returns %r, latest mapping is -> %s" % (
-                    why, name, got[1:], ADDRS[mm["addr"]]))
-            else:
-                mm["seen_live"] = True
-                if mm["E"] is not None and now - mm["created"] > DAY:
-                    res.label("alive-checked-beyond-24h")
-        elif model.def_expired(mm, now) and mm["turn"]:
-            if model.heard[i]:
-                model.bad(i, "expired-not-notified", "%s: mapping of %r expired %s, now %s, no addrmap_expired" % (
-                    why, name, _stamp(mm["E"]), _stamp(now)))
-            elif got is not None:
-                model.bad(i, "expired-name-still-found", "%s: find(%r) returns %r at %s although its latest "
-                          "mapping expired %s" % (why, name, got[1:], _stamp(now), _stamp(mm["E"])))
-            else:
-                _end_mapping(model, i, now)
+        if j in self.probation:
+            # added while some notification was under way: whether a call is the tail of that notification or
+            # the head of the next identical one cannot be told apart, so this listener only starts to count
+            # (and to act) once the current step is over
+            self.res.label("call-to-listener-added-mid-notification-ignored")
+            return
+        if not self.frames:
+            self.bad(i, "spurious-notification", "listener %d called (%s %s) outside any line or clock advance" % (
+                j, kind, name))
+            return
+        fr = self.frames[-1]
+        now = self.world.now()
+        key = (kind, i)
+        rd = fr.round
+        if rd is not None and rd[0] == key and j not in rd[2]:
+            rd[2].append(j)
         else:
-            res.label("boundary-unchecked")
-    if not res.ok:
-        return
-    # addresses
-    users = {}
-    for i, mm in enumerate(model.m):
-        if mm is not None:
-            users.setdefault(mm["addr"], []).append(i)
-    for j in list(model.contested):
-        if j not in users:
-            model.contested.discard(j)
-    for j, addr in enumerate(ADDRS + [ERROR]):
-        got = world.find(addr)
-        if got is not None and got[0] == "raised":
-            res.bad("find-raised", "%s: find(%r) raised %s" % (why, addr, got[1]))
-            continue
-        if got is not None:
-            i = _name_index(got[1])
-            mm = model.m[i] if i is not None else None
-            dead = mm is None or (model.def_expired(mm, now) and mm["turn"])
-            if i is None or dead or got[2] != ADDRS[mm["addr"]]:
-                if addr == ERROR:
-                    res.bad("error-key-left-in-map", "%s: find('<error>') returns the dropped mapping %r" % (
-                        why, got[1:]))
-                else:
-                    res.bad("address-key-survives-expiry", "%s: find(%r) returns %r which is not the current, "
-                            "unexpired mapping of that name (%s)" % (
-                                why, addr, got[1:],
-                                "none" if mm is None else "-> %s, expires %s" % (
-                                    ADDRS[mm["addr"]], "never" if mm["E"] is None else _stamp(mm["E"]))))
+            if rd is not None and rd[0] == key and any(k not in rd[2] for k in rd[1]):
+                self.bad(i, "listener-notified-twice", "%s: listener %d hears %s(%s) a second time before listeners %r "
+                         "heard it once" % (fr.why, j, kind, name, [k for k in rd[1] if k not in rd[2]]))
+                return
+            self.close_round(fr)
+            if not self.res.ok:
+                return
+            fr.round = [key, list(self.registered), [j]]
+            self.event(fr, kind, i, ip, now)
+            if not self.res.ok:
+                return
+        if j not in self.registered:
+            self.bad(i, "unregistered-listener-notified", "%s: listener %d was never added" % (fr.why, j))
+            return
+        n = self.calls[j]
+        self.calls[j] += 1
+        what = "addrmap_added" if kind == "A" else "addrmap_expired"
+        why = "%s, inside %s(%s) of listener %d" % (fr.why, what, name, j)
+        self.res.label("lookup-inside-" + ("added" if kind == "A" else "expired"))
+        self.observe(why, inside=(kind, i))
+        if not self.res.ok:
+            return
+        behav = self.specs[j].get("behav", [])
+        if n < len(behav) and behav[n] != "ok":
+            self.behave(fr, kind, i, behav[n], why)
+
+    def close_round(self, fr):
+        rd = fr.round
+        fr.round = None
+        if rd is None:
+            return
+        missing = [k for k in rd[1] if k not in rd[2]]
+        if missing:
+            self.bad(rd[0][1], "listener-missed-notification", "%s: %s(%s) reached listeners %r but not %r, which "
+                     "were added before it" % (fr.why, rd[0][0], NAMES[rd[0][1]], rd[2], missing))
+
+    def behave(self, fr, kind, i, beh, why):
+        do = beh.get("do")
+        if do == "add":
+            jj = beh["j"] % len(self.specs)
+            exc = self.world.add_listener(jj)
+            if exc is not None:
+                self.bad(None, "add-listener-raised", "%s: add_listener raised %r" % (why, exc))
+                return
+            if jj not in self.registered and jj not in self.probation:
+                self.probation.append(jj)
+                self.res.label("listener-added-inside-callback")
+            else:
+                self.res.label("listener-added-again")
+            return
+        if do not in ("map", "err"):
+            raise HarnessError("unknown behaviour %r" % (beh,))
+        t = i if beh.get("name") is None else beh["name"] % len(NAMES)
+        step = {"op": do, "name": t, "exp": beh["exp"], "form": beh.get("form", "new")}
+        if do == "map":
+            step["addr"] = beh["addr"]
+            step["cached"] = False
+        if len(self.frames) >= MAX_DEPTH:
+            self.res.excluded.append("fed-from-callback-too-deep")
+            return
+        if t in self.busy_names()[0]:
+            # the outer line about this very name is not finished under every accepted reading
+            self.res.excluded.append("fed-from-callback-while-that-name-is-mid-update")
+            return
+        if self.world.transport_busy():
+            self.deferred.append((step, "line sent from " + why))
+            self.res.label("fed-from-callback-arrives-after-current-event")
+            return
+        self.res.label("fed-inside-%s-%s-name-%s" % ("added" if kind == "A" else "expired",
+                                                       "same" if t == i else "other", do))
+        if self.in_advance:
+            self.res.label("fed-inside-timer-expiry")
+        w2 = "line %r fed from %s" % (step, why)
+        if do == "map":
+            self.do_map(step, w2)
+        else:
+            self.do_err(step, w2)
+
+    # ---------------------------------------------------------------- the reference map, event by event
+    def event(self, fr, kind, i, ip, now):
+        if fr.op == "map" and fr.subj == i:
+            self.map_event(fr, kind, i, ip)
+        elif fr.op == "err" and fr.subj == i:
+            self.err_event(fr, kind, i)
+        elif fr.op == "boot" and i in fr.boot:
+            self.boot_event(fr, kind, i, ip, now)
+        else:
+            self.generic_event(fr, kind, i, ip, now)
+
+    def generic_event(self, fr, kind, i, ip, now):
+        """A call about a name that is not the subject of the line being fed: only an 'expired' of a
+        heard mapping that is no longer certainly alive is legal."""
+        mm = self.m[i]
+        if kind == "A":
+            self.bad(i, "unexpected-added", "%s: addrmap_added(%s -> %s) although no line about it" % (
+                fr.why, NAMES[i], ip))
+            return
+        if not self.heard[i]:
+            self.bad(i, "expired-without-added", "%s: addrmap_expired(%s) although the listener never heard it "
+                     "added (or already heard it expire)" % (fr.why, NAMES[i]))
+            return
+        if mm is None or def_live(mm, now):
+            self.bad(i, "expired-while-alive", "%s: addrmap_expired(%s) at %s but the latest mapping expires %s" % (
+                fr.why, NAMES[i], _stamp(now), _exp_text(mm)))
+            return
+        self.heard[i] = False
+        self.end_mapping(i)
+
+    def map_event(self, fr, kind, i, ip):
+        if kind == "A":
+            if fr.seen_a:
+                self.bad(i, "added-twice", "%s: two addrmap_added for one line" % fr.why)
+                return
+            if ip != ADDRS[fr.new["addr"]]:
+                self.bad(i, "added-wrong-address", "%s: addrmap_added carries %r, line says %r" % (
+                    fr.why, ip, ADDRS[fr.new["addr"]]))
+                return
+            if self.heard[i]:
+                self.res.label("added-again-on-replace")
+            fr.seen_a = True
+            self.heard[i] = True
+            self.m[i] = fr.new
+            # nothing more can follow for a mapping that is certainly alive: the line is done
+            fr.busy = fr.u_new
+        else:
+            if not self.heard[i]:
+                self.bad(i, "expired-without-added", "%s: addrmap_expired(%s) although the listener does not "
+                         "hold it" % (fr.why, NAMES[i]))
+                return
+            if not ((not fr.seen_a and (fr.u_old or fr.u_new)) or (fr.seen_a and fr.u_new)):
+                self.bad(i, "expired-while-alive", "%s: addrmap_expired(%s) although neither the old nor the "
+                         "new mapping can have expired" % (fr.why, NAMES[i]))
+                return
+            self.heard[i] = False
+            self.end_mapping(i)
+            fr.busy = True
+        fr.last = kind
+
+    def err_event(self, fr, kind, i):
+        if fr.h0:
+            if kind != "X" or fr.last is not None:
+                self.bad(i, "error-drop-wrong-notifications", "%s: listener heard %s%s for an <error> on a name it "
+                         "holds; expected nothing or one 'expired'" % (
+                             fr.why, "another " if fr.last else "", "added" if kind == "A" else "expired"))
+                return
+            self.heard[i] = False
+            self.end_mapping(i)
+            fr.busy = False         # dropped and told: the line is done
+        else:
+            if kind == "X" and fr.last is None:
+                self.res.bad("fresh-error-expired-then-added", "%s: an <error> for %r, which the listener does not "
+                             "hold, made it hear 'expired' first" % (fr.why, NAMES[i]))
+                return
+            if not ((kind == "A" and fr.last is None) or (kind == "X" and fr.last == "A")):
+                self.bad(i, "error-fresh-wrong-notifications", "%s: listener heard %s after %r for an <error> on a "
+                         "name it does not hold" % (fr.why, kind, fr.last))
+                return
+        fr.last = kind
+
+    def boot_event(self, fr, kind, i, ip, now):
+        b = fr.boot[i]
+        ok = (kind == "A" and b["last"] is None) or (kind == "X" and b["last"] == "A" and not def_live(b["new"], now))
+        if ok and kind == "A" and ip != ADDRS[b["new"]["addr"]]:
+            ok = False
+        if not ok:
+            self.bad(i, "boot-wrong-notifications", "%s: listener heard %s(%s -> %s) after %r" % (
+                fr.why, kind, NAMES[i], ip, b["last"]))
+            return
+        if kind == "A":
+            self.heard[i] = True
+            self.m[i] = b["new"]
+        else:
+            self.heard[i] = False
+            self.end_mapping(i)
+        b["last"] = kind
+
+    # ---------------------------------------------------------------- lookups
+    def observe(self, why, inside=None):
+        """find() of every name and every address against the reference map.  Runs after every step and
+        from inside every listener call (``inside`` = (kind, name index) of that call)."""
+        res, world = self.res, self.world
+        now = world.now()
+        skip_names, skip_addrs = self.busy_names() if inside is not None else (set(), set())
+        lenient = set()
+        hearing = None
+        if inside is not None:
+            if inside[0] == "A":
+                lenient.add(inside[1])      # 'added' may be announced just before the mapping is resolvable
+            else:
+                hearing = inside[1]
+        settled = not self.in_advance       # while timers are still firing, overdue names are not judged
+        for i, name in enumerate(NAMES):
+            if i in skip_names:
                 continue
-            if got[2] != addr:
-                res.label("old-address-key-after-replace")
+            mm = self.m[i]
+            got = world.find(name)
+            if got is not None and got[0] == "raised":
+                self.bad(i, "find-raised", "%s: find(%r) raised %s" % (why, name, got[1]))
+                continue
+            if mm is None:
+                if got is not None:
+                    if hearing == i:
+                        res.bad("found-while-hearing-expired", "%s: find(%r) still returns %r while the listener "
+                                "is being told that it expired" % (why, name, got[1:]))
+                    else:
+                        self.bad(i, "dropped-name-still-found", "%s: find(%r) returns %r although its latest "
+                                 "mapping was dropped/expired" % (why, name, got[1:]))
+            elif def_live(mm, now):
+                if not self.heard[i]:
+                    self.bad(i, "added-missing", "%s: %r is mapped but the listener was never told (or was told "
+                             "it expired)" % (why, name))
+                elif got is None:
+                    if i not in lenient:
+                        self.bad(i, "live-name-not-found", "%s: find(%r) fails at %s although its latest mapping "
+                                 "(-> %s) expires %s" % (why, name, _stamp(now), ADDRS[mm["addr"]], _exp_text(mm)))
+                elif got[1] != name or got[2] != ADDRS[mm["addr"]]:
+                    self.bad(i, "wrong-mapping-returned", "%s: find(%r) returns %r, latest mapping is -> %s" % (
+                        why, name, got[1:], ADDRS[mm["addr"]]))
+                else:
+                    mm["seen_live"] = True
+                    if mm["E"] is not None and now - mm["created"] > DAY:
+                        res.label("alive-checked-beyond-24h")
+            elif def_expired(mm, now) and mm["turn"] and settled:
+                if self.heard[i]:
+                    self.bad(i, "expired-not-notified", "%s: mapping of %r expired %s, now %s, no addrmap_expired" % (
+                        why, name, _stamp(mm["E"]), _stamp(now)))
+                elif got is not None:
+                    self.bad(i, "expired-name-still-found", "%s: find(%r) returns %r at %s although its latest "
+                             "mapping expired %s" % (why, name, got[1:], _stamp(now), _stamp(mm["E"])))
+                else:
+                    self.end_mapping(i)
             else:
-                res.label("address-lookup-ok")
-            continue
-        if addr == ERROR:
-            continue
-        us = users.get(j, [])
-        if len(us) == 1 and j not in model.contested:
-            mm = model.m[us[0]]
-            if model.def_live(mm, now) and not mm["changed"] and model.heard[us[0]]:
-                model.bad(us[0], "address-lookup-fails", "%s: find(%r) fails although %r was first mapped to "
-                          "it, is alive, and no other name uses it" % (why, addr, NAMES[us[0]]))
+                res.label("boundary-unchecked")
+        if not res.ok:
+            return
+        # addresses
+        users = {}
+        for i, mm in enumerate(self.m):
+            if mm is not None:
+                users.setdefault(mm["addr"], []).append(i)
+        if inside is None:
+            for j in list(self.contested):
+                if j not in users:
+                    self.contested.discard(j)
+        for j, addr in enumerate(ADDRS + [ERROR]):
+            if j in skip_addrs:
+                continue
+            got = world.find(addr)
+            if got is not None and got[0] == "raised":
+                res.bad("find-raised", "%s: find(%r) raised %s" % (why, addr, got[1]))
+                continue
+            if got is not None:
+                i = _name_index(got[1])
+                if i is not None and i in skip_names:
+                    continue
+                mm = self.m[i] if i is not None else None
+                dead = mm is None or (def_expired(mm, now) and mm["turn"] and settled)
+                if i is None or dead or got[2] != ADDRS[mm["addr"]]:
+                    if hearing is not None and i == hearing and mm is None:
+                        res.bad("address-found-while-hearing-expired", "%s: find(%r) still returns %r while the "
+                                "listener is being told that %r expired" % (why, addr, got[1:], NAMES[i]))
+                    elif addr == ERROR:
+                        res.bad("error-key-left-in-map", "%s: find('<error>') returns the dropped mapping %r" % (
+                            why, got[1:]))
+                    else:
+                        res.bad("address-key-survives-expiry", "%s: find(%r) returns %r which is not the current, "
+                                "unexpired mapping of that name (%s)" % (
+                                    why, addr, got[1:],
+                                    "none" if mm is None else "-> %s, expires %s" % (
+                                        ADDRS[mm["addr"]], _exp_text(mm))))
+                    continue
+                if got[2] != addr:
+                    res.label("old-address-key-after-replace")
+                else:
+                    res.label("address-lookup-ok")
+                continue
+            if addr == ERROR:
+                continue
+            us = users.get(j, [])
+            if len(us) == 1 and j not in self.contested and us[0] not in lenient:
+                mm = self.m[us[0]]
+                if def_live(mm, now) and not mm["changed"] and self.heard[us[0]]:
+                    self.bad(us[0], "address-lookup-fails", "%s: find(%r) fails although %r was first mapped to "
+                             "it, is alive, and no other name uses it" % (why, addr, NAMES[us[0]]))
 
+    # ---------------------------------------------------------------- steps
+    def do_map(self, step, why):
+        res = self.res
+        i = step["name"] % len(NAMES)
+        j = step["addr"] % len(ADDRS)
+        now = self.world.now()
+        now_int = int(now)
+        E = None if step["exp"] is None else now_int + step["exp"]
+        old = self.m[i]
+        self.map_lines += 1
+        # ---- hazards (from the case only)
+        if old is not None:
+            if old["E"] is not None and E is None:
+                self.haz[i].add("stale-timer-after-never")
+                res.label("timed->never")
+            if old["E"] is None and E is not None:
+                res.label("never->timed")
+            if old["E"] is not None and E is not None:
+                if E < old["E"]:
+                    self.haz[i].add("expiry-delay-arithmetic")
+                    res.label("replace-shortens")
+                elif E > old["E"]:
+                    res.label("replace-extends")
+                    if E - old["E"] >= DAY:
+                        self.haz[i].add("expiry-delay-arithmetic")
+                        res.label("replace-extends>=24h")
+                if old["E"] <= old["created"] + 1:
+                    self.haz[i].add("expiry-delay-arithmetic")     # the running timer was clamped to 'now'
+                    res.label("replace-of-overdue")
+            if old["addr"] != j:
+                res.label("replace-address")
+        if E is not None and E - now >= DAY:
+            self.haz[i].add("expiry-delay-arithmetic")
+            res.label("expiry>24h")
+        if E is not None and E - now < 1:
+            res.label("past-expiry-replace" if old is not None else "past-expiry-fresh")
+        if old is None and self.lifecycles:
+            res.label("name-reused-after-expiry")
+        for k, mk in enumerate(self.m):
+            if k != i and mk is not None and mk["addr"] == j:
+                self.contested.add(j)
+                res.label("shared-address")
+        res.label("form-" + step.get("form", "new"))
+        if E is None:
+            res.label("never")
 
-def _do_map(model, world, res, step, why):
-    i = step["name"] % len(NAMES)
-    j = step["addr"] % len(ADDRS)
-    now = world.now()
-    now_int = int(now)
-    E = None if step["exp"] is None else now_int + step["exp"]
-    old = model.m[i]
-    model.map_lines += 1
-    # ---- hazards (from the case only)
-    if old is not None:
-        if old["E"] is not None and E is None:
-            model.haz[i].add("stale-timer-after-never")
-            res.label("timed->never")
-        if old["E"] is None and E is not None:
-            res.label("never->timed")
-        if old["E"] is not None and E is not None:
-            if E < old["E"]:
-                model.haz[i].add("expiry-delay-arithmetic")
-                res.label("replace-shortens")
-            elif E > old["E"]:
-                res.label("replace-extends")
-                if E - old["E"] >= DAY:
-                    model.haz[i].add("expiry-delay-arithmetic")
-                    res.label("replace-extends>=24h")
-            if old["E"] <= old["created"] + 1:
-                model.haz[i].add("expiry-delay-arithmetic")     # the running timer was clamped to 'now'
-                res.label("replace-of-overdue")
-        if old["addr"] != j:
-            res.label("replace-address")
-    if E is not None and E - now >= DAY:
-        model.haz[i].add("expiry-delay-arithmetic")
-        res.label("expiry>24h")
-    if E is not None and E - now < 1:
-        res.label("past-expiry-replace" if old is not None else "past-expiry-fresh")
-    if old is None and model.lifecycles:
-        res.label("name-reused-after-expiry")
-    for k, mk in enumerate(model.m):
-        if k != i and mk is not None and mk["addr"] == j:
-            model.contested.add(j)
-            res.label("shared-address")
-    res.label("form-" + step.get("form", "new"))
-    if E is None:
-        res.label("never")
+        fr = _Frame("map", why, i)
+        fr.old = old
+        fr.new = {"addr": j, "E": E, "turn": False, "created": now, "seen_live": False,
+                  "changed": bool(old is not None and (old["changed"] or old["addr"] != j))}
+        fr.u_old = old is not None and not def_live(old, now)
+        fr.u_new = not def_live(fr.new, now)
+        self.frames.append(fr)
+        try:
+            exc = self.world.feed(format_line(step, now_int, self.world.zone))
+        finally:
+            self.frames.pop()
+        if not res.ok:
+            return
+        if exc is not None:
+            self.bad(i, "update-raised", "%s: %s: %r" % (why, type(exc).__name__, exc))
+            return
+        self.close_round(fr)
+        if fr.last is None:
+            # no listener call: a silent replacement (or a silently ignored overdue mapping); heard[] is unchanged
+            self.m[i] = fr.new
 
-    n0 = len(world.events)
-    exc = world.feed(format_line(step, now_int, world.zone))
-    if exc is not None:
-        model.bad(i, "update-raised", "%s: %s: %r" % (why, type(exc).__name__, exc))
-        return
-    per, odd = _split_events(world.events[n0:])
-    if odd:
-        res.bad("listener-odd-argument", "%s: %r" % (why, odd))
-        return
-    new = {"addr": j, "E": E, "turn": False, "created": now, "seen_live": False,
-           "changed": bool(old is not None and (old["changed"] or old["addr"] != j))}
-    u_old = old is not None and not model.def_live(old, now)
-    u_new = not model.def_live(new, now)
-    h = model.heard[i]
-    seen_a = False
-    last = None
-    for ev in per.pop(i, []):
-        if ev[0] == "A":
-            if seen_a:
-                model.bad(i, "added-twice", "%s: two addrmap_added for one line" % why)
-                return
-            if ev[1] != ADDRS[j]:
-                model.bad(i, "added-wrong-address", "%s: addrmap_added carries %r, line says %r" % (
-                    why, ev[1], ADDRS[j]))
-                return
-            if h:
-                res.label("added-again-on-replace")
-            seen_a = True
-            h = True
+    def do_err(self, step, why):
+        res = self.res
+        i = step["name"] % len(NAMES)
+        now = self.world.now()
+        old = self.m[i]
+        if old is not None and old["E"] is not None:
+            self.haz[i].add("stale-timer-after-error")
+            res.label("error-on-timed")
+        elif old is not None:
+            res.label("error-on-never")
         else:
-            if not h:
-                model.bad(i, "expired-without-added", "%s: addrmap_expired(%s) although the listener does not "
-                          "hold it" % (why, NAMES[i]))
-                return
-            if not ((not seen_a and (u_old or u_new)) or (seen_a and u_new)):
-                model.bad(i, "expired-while-alive", "%s: addrmap_expired(%s) although neither the old nor the "
-                          "new mapping can have expired" % (why, NAMES[i]))
-                return
-            h = False
-        last = ev[0]
-    for k, evs in per.items():
-        _generic_events(model, k, evs, now, why)
-    model.heard[i] = h
-    # an 'expired' as the last word means the implementation already dropped the new mapping
-    model.m[i] = None if last == "X" else new
-
-
-def _do_err(model, world, res, step, why):
-    i = step["name"] % len(NAMES)
-    now = world.now()
-    old = model.m[i]
-    if old is not None and old["E"] is not None:
-        model.haz[i].add("stale-timer-after-error")
-        res.label("error-on-timed")
-    elif old is not None:
-        res.label("error-on-never")
-    else:
-        res.label("error-on-unmapped")
-    n0 = len(world.events)
-    exc = world.feed(format_line(step, int(now), world.zone))
-    if exc is not None:
-        model.bad(i, "update-raised", "%s: %s: %r" % (why, type(exc).__name__, exc))
-        return
-    per, odd = _split_events(world.events[n0:])
-    if odd:
-        res.bad("listener-odd-argument", "%s: %r" % (why, odd))
-        return
-    mine = [e[0] for e in per.pop(i, [])]
-    if model.heard[i]:
-        if mine not in ([], ["X"]):
-            model.bad(i, "error-drop-wrong-notifications", "%s: listener heard %r for an <error> on a name it "
-                      "holds; expected nothing or one 'expired'" % (why, mine))
+            res.label("error-on-unmapped")
+        fr = _Frame("err", why, i)
+        fr.old = old
+        fr.h0 = self.heard[i]
+        self.frames.append(fr)
+        try:
+            exc = self.world.feed(format_line(step, int(now), self.world.zone))
+        finally:
+            self.frames.pop()
+        if not res.ok:
             return
-        res.label("error-drop-notified" if mine else "error-drop-silent")
-    else:
-        if mine == ["X", "A"]:
-            res.bad("fresh-error-expired-then-added", "%s: an <error> for %r, which is not in the map, made the "
-                    "listener hear 'expired' and then 'added' (it now believes the name is mapped)" % (why, NAMES[i]))
+        if exc is not None:
+            self.bad(i, "update-raised", "%s: %s: %r" % (why, type(exc).__name__, exc))
             return
-        if mine not in ([], ["A", "X"]):
-            model.bad(i, "error-fresh-wrong-notifications", "%s: listener heard %r for an <error> on a name it "
-                      "does not hold" % (why, mine))
+        self.close_round(fr)
+        if not res.ok:
             return
-    for k, evs in per.items():
-        _generic_events(model, k, evs, now, why)
-    model.heard[i] = False
-    model.m[i] = None       # dropped at once
-
-
-def _do_advance(model, world, res, dt, why):
-    n0 = len(world.events)
-    exc = world.advance(dt)
-    now = world.now()
-    if dt > DAY:
-        res.label("advance>24h")
-    if exc is not None:
-        i = None
-        if isinstance(exc, KeyError) and exc.args:
-            i = _name_index(exc.args[0])
-        if i is not None:
-            model.bad(i, "advance-raised", "%s: clock.advance raised %s: %r" % (why, type(exc).__name__, exc))
+        if fr.h0:
+            res.label("error-drop-notified" if fr.last else "error-drop-silent")
+            if fr.last is None:
+                self.heard[i] = False
+                self.end_mapping(i)         # dropped at once
         else:
-            res.bad("advance-raised", "%s: clock.advance raised %s: %r" % (why, type(exc).__name__, exc))
-        return
-    for mm in model.m:
-        if mm is not None:
-            mm["turn"] = True
-    per, odd = _split_events(world.events[n0:])
-    if odd:
-        res.bad("listener-odd-argument", "%s: %r" % (why, odd))
-        return
-    for k, evs in sorted(per.items()):
-        if len(evs) > 1 and res.ok:
-            model.bad(k, "expired-twice", "%s: %r heard %r during one advance" % (why, NAMES[k], evs))
+            if fr.last == "A":
+                self.bad(i, "error-fresh-wrong-notifications", "%s: 'added' for an <error> was not followed by "
+                         "'expired'" % why)
+                return
+            self.heard[i] = False
+            self.m[i] = None
+
+    def do_advance(self, dt, why):
+        res = self.res
+        if dt > DAY:
+            res.label("advance>24h")
+        fr = _Frame("adv", why)
+        present = [mm for mm in self.m if mm is not None]
+        self.frames.append(fr)
+        self.in_advance += 1
+        try:
+            exc = self.world.advance(dt)
+        finally:
+            self.in_advance -= 1
+            self.frames.pop()
+        if not res.ok:
             return
-        _generic_events(model, k, evs, now, why)
+        if exc is not None:
+            i = None
+            if isinstance(exc, KeyError) and exc.args:
+                i = _name_index(exc.args[0])
+            self.bad(i, "advance-raised", "%s: clock.advance raised %s: %r" % (why, type(exc).__name__, exc))
+            return
+        self.close_round(fr)
+        for mm in present:
+            mm["turn"] = True       # the scheduler has run since these were announced
 
+    def do_listen(self, step, why):
+        jj = step["j"] % len(self.specs)
+        exc = self.world.add_listener(jj)
+        if exc is not None:
+            self.res.bad("add-listener-raised", "%s: add_listener raised %r" % (why, exc))
+            return
+        if jj in self.probation:
+            self.probation.remove(jj)
+        if jj not in self.registered:
+            self.registered.append(jj)
+            self.res.label("listener-added-by-step")
+        else:
+            self.res.label("listener-added-again")
 
-def _near_dt(model, now, step):
-    pend = sorted(set(mm["E"] for mm in model.m if mm is not None and mm["E"] is not None and mm["E"] > now))
-    if not pend:
-        return abs(step["delta"]) + 1
-    target = pend[step["k"] % len(pend)] + step["delta"]
-    dt = target - int(now)
-    return dt if dt >= 1 else 1
+    def near_dt(self, step):
+        now = self.world.now()
+        pend = sorted(set(mm["E"] for mm in self.m if mm is not None and mm["E"] is not None and mm["E"] > now))
+        if not pend:
+            return abs(step["delta"]) + 1
+        target = pend[step["k"] % len(pend)] + step["delta"]
+        dt = target - int(now)
+        return dt if dt >= 1 else 1
 
+    def boot_torstate(self, boot_steps):
+        res = self.res
+        now = self.world.now()
+        lines = [format_line(bs, int(now), self.world.zone) for bs in boot_steps]
+        fr = _Frame("boot", "TorState bootstrap with address-mappings/all=%r" % (lines,))
+        for bs in boot_steps:
+            i = bs["name"] % len(NAMES)
+            j = bs["addr"] % len(ADDRS)
+            E = None if bs["exp"] is None else int(now) + bs["exp"]
+            new = {"addr": j, "E": E, "turn": False, "created": now, "seen_live": False, "changed": False}
+            if E is not None and E - now >= DAY:
+                self.haz[i].add("expiry-delay-arithmetic")
+                res.label("expiry>24h")
+            for k, b in fr.boot.items():
+                if b["new"]["addr"] == j:
+                    self.contested.add(j)
+            self.map_lines += 1
+            fr.boot[i] = {"new": new, "last": None}
+        self.frames.append(fr)
+        try:
+            excs = self.world.start(lines)
+        finally:
+            self.frames.pop()
+        if not res.ok:
+            return
+        if excs:
+            res.bad("update-raised", "%s: %r" % (fr.why, excs[0]))
+            return
+        self.close_round(fr)
+        for i, b in fr.boot.items():
+            if b["last"] is None:
+                # not announced: acceptable only for an overdue mapping; observe() reports 'added-missing' otherwise
+                self.m[i] = b["new"]
 
-def _drive(case, kind):
-    res = Result()
-    model = _Model(res)
-    world = _World(case, kind)
-    boot = case.get("boot", [])
-    boot_steps = [{"op": "map", "name": b["name"], "addr": b["addr"], "exp": b["exp"], "form": "utc3"}
-                  for b in boot]
-    if case.get("zone", 0):
-        res.label("zone-nonzero")
-    if boot:
-        res.label("boot-mappings")
-    try:
-        if kind == "direct":
-            world.start([])
-            for n, bs in enumerate(boot_steps):
-                _do_map(model, world, res, bs, "boot line %d" % n)
+    def run_step(self, step, why):
+        op = step["op"]
+        if op == "map":
+            self.do_map(step, why)
+        elif op == "err":
+            self.do_err(step, why)
+        elif op == "adv":
+            self.do_advance(max(1, int(step["dt"])), why)
+        elif op == "near":
+            dt = self.near_dt(step)
+            self.res.label("advance-near-expiry")
+            self.do_advance(dt, why + " (dt=%d)" % dt)
+        elif op == "listen":
+            self.do_listen(step, why)
+        else:
+            raise HarnessError("unknown op %r" % (op,))
+
+    def settle(self, why):
+        """Lines 'sent' from inside callbacks while the transport was busy arrive now, then look everything up."""
+        guard = 0
+        while self.deferred and self.res.ok:
+            step, w = self.deferred.pop(0)
+            guard += 1
+            if guard > 50:
+                self.res.excluded.append("deferred-line-chain-cut")
+                del self.deferred[:]
+                break
+            self.run_step(step, w)
+            if self.res.ok:
+                self.observe("after " + w)
+        for jj in self.probation:
+            if jj not in self.registered:
+                self.registered.append(jj)
+        del self.probation[:]
+        if self.res.ok:
+            self.observe("after " + why)
+
+    def run(self):
+        res, case = self.res, self.case
+        boot_steps = [{"op": "map", "name": b["name"], "addr": b["addr"], "exp": b["exp"], "form": "utc3"}
+                      for b in case.get("boot", [])]
+        if case.get("zone", 0):
+            res.label("zone-nonzero")
+        if boot_steps:
+            res.label("boot-mappings")
+        if len(self.specs) > 1:
+            res.label("several-listeners")
+        try:
+            if self.kind == "direct":
+                self.world.start([])
+                for n, bs in enumerate(boot_steps):
+                    self.do_map(bs, "boot line %d" % n)
+                    if not res.ok:
+                        return res
+                    self.settle("boot line %d" % n)
+                    if not res.ok:
+                        return res
+            else:
+                self.boot_torstate(boot_steps)
                 if not res.ok:
                     return res
-                _observe(model, world, res, "after boot line %d" % n)
+                self.settle("bootstrap")
                 if not res.ok:
                     return res
-        else:
-            # model first (hazards, expected state), then one bootstrap feeds all lines at once
-            now = world.now()
-            lines = [format_line(bs, int(now), world.zone) for bs in boot_steps]
-            n0 = 0
-            excs = world.start(lines)
-            if excs:
-                res.bad("update-raised", "TorState bootstrap with address-mappings/all=%r: %r" % (lines, excs[0]))
-                return res
-            per, odd = _split_events(world.events[n0:])
-            if odd:
-                res.bad("listener-odd-argument", "bootstrap: %r" % (odd,))
-                return res
-            for bs in boot_steps:
-                i = bs["name"] % len(NAMES)
-                j = bs["addr"] % len(ADDRS)
-                E = None if bs["exp"] is None else int(now) + bs["exp"]
-                new = {"addr": j, "E": E, "turn": False, "created": now, "seen_live": False, "changed": False}
-                if E is not None and E - now >= DAY:
-                    model.haz[i].add("expiry-delay-arithmetic")
-                    res.label("expiry>24h")
-                for k, mk in enumerate(model.m):
-                    if k != i and mk is not None and mk["addr"] == j:
-                        model.contested.add(j)
-                model.map_lines += 1
-                mine = [e[0] for e in per.pop(i, [])]
-                u_new = not model.def_live(new, now)
-                ok = [["A"]] + ([[], ["A", "X"]] if u_new else [])
-                if mine not in ok:
-                    model.bad(i, "boot-wrong-notifications", "bootstrap mapping %r: listener heard %r" % (
-                        lines, mine))
+            for n, step in enumerate(case["steps"]):
+                why = "step %d %r" % (n, step)
+                self.run_step(step, why)
+                if not res.ok:
                     return res
-                model.heard[i] = mine == ["A"]
-                model.m[i] = None if mine == ["A", "X"] else new
-            if per:
-                res.bad("unexpected-added", "bootstrap: listener calls for unlisted names %r" % (per,))
-                return res
-            _observe(model, world, res, "after bootstrap")
-            if not res.ok:
-                return res
-        for n, step in enumerate(case["steps"]):
-            op = step["op"]
-            why = "step %d %r" % (n, step)
-            if op == "map":
-                _do_map(model, world, res, step, why)
-            elif op == "err":
-                _do_err(model, world, res, step, why)
-            elif op == "adv":
-                _do_advance(model, world, res, max(1, int(step["dt"])), why)
-            elif op == "near":
-                dt = _near_dt(model, world.now(), step)
-                res.label("advance-near-expiry")
-                _do_advance(model, world, res, dt, why + " (dt=%d)" % dt)
-            else:
-                raise HarnessError("unknown op %r" % (op,))
-            if not res.ok:
-                return res
-            _observe(model, world, res, "after " + why)
-            if not res.ok:
-                return res
-    finally:
-        world.stop()
-    if model.lifecycles:
-        res.label("lifecycle-observed")
-    res.nontrivial = model.map_lines >= 2 and model.lifecycles >= 1
-    res.labels = sorted(set(res.labels))        # histogram counts cases, not occurrences
-    return res
+                self.settle(why)
+                if not res.ok:
+                    return res
+        finally:
+            self.world.stop()
+        if self.lifecycles:
+            res.label("lifecycle-observed")
+        res.nontrivial = self.map_lines >= 2 and self.lifecycles >= 1
+        res.labels = sorted(set(res.labels))        # histogram counts cases, not occurrences
+        return res
 
 
 def drive_direct(case):
-    return _drive(case, "direct")
+    return _Run(case, "direct").run()
 
 
 def drive_torstate(case):
-    return _drive(case, "torstate")
+    return _Run(case, "torstate").run()
 
 
 DRIVERS = {"direct": drive_direct, "torstate": drive_torstate}
@@ -739,9 +1038,29 @@ def _adv_steps():
     )
 
 
-def _steps():
-    return st.lists(st.one_of(_map_steps(), _map_steps(), _map_steps(), _err_steps(), _adv_steps(),
-                              _adv_steps(), _adv_steps()), min_size=1, max_size=30)
+def _listen_steps():
+    return st.builds(lambda j: {"op": "listen", "j": j}, st.integers(0, 2))
+
+
+def _steps(listen=False):
+    kinds = [_map_steps(), _map_steps(), _map_steps(), _err_steps(), _adv_steps(), _adv_steps(), _adv_steps()]
+    if listen:
+        kinds = kinds * 2 + [_listen_steps()]
+    return st.lists(st.one_of(*kinds), min_size=1, max_size=30)
+
+
+def _behaviours():
+    """What a listener does from inside its 1st, 2nd, ... call (it always looks everything up)."""
+    who = st.one_of(st.none(), st.none(), st.none(), st.integers(0, len(NAMES) - 1))
+    feed = st.builds(lambda n, a, e, f: {"do": "map", "name": n, "addr": a, "exp": e, "form": f},
+                     who, st.integers(0, len(ADDRS) - 1), _expiry(), st.sampled_from(["new", "new", "mid", "utc3"]))
+    ferr = st.builds(lambda n, e: {"do": "err", "name": n, "exp": e, "form": "new"}, who, st.integers(30, 3600))
+    add = st.builds(lambda j: {"do": "add", "j": j}, st.integers(0, 2))
+    return st.lists(st.one_of(st.just("ok"), st.just("ok"), feed, feed, feed, ferr, add), max_size=8)
+
+
+def _listeners():
+    return st.lists(st.builds(lambda b: {"behav": b}, _behaviours()), min_size=1, max_size=3)
 
 
 def _boot():
@@ -755,8 +1074,55 @@ def cases():
     epoch = st.one_of(st.integers(1577836800, 2145916800),
                       st.sampled_from([1582934400 - 40, 1609459200 - 5, 1709251200 - 100, 1735689600 - 3000]))
     zone = st.sampled_from([0, 0, 60, -300, 330, 765, -720, 840, 120, -480])
-    return st.builds(lambda e, f, z, b, s: {"epoch": e, "frac": f, "zone": z, "boot": b, "steps": s},
-                     epoch, st.sampled_from([0, 0, 250000, 500000, 999999]), zone, _boot(), _steps())
+    frac = st.sampled_from([0, 0, 250000, 500000, 999999])
+    plain = st.builds(lambda e, f, z, b, s: {"epoch": e, "frac": f, "zone": z, "boot": b, "steps": s},
+                      epoch, frac, zone, _boot(), _steps())
+    acting = st.builds(lambda e, f, z, b, s, ls: {"epoch": e, "frac": f, "zone": z, "boot": b, "steps": s,
+                                                  "listeners": ls},
+                       epoch, frac, zone, _boot(), _steps(listen=True), _listeners())
+    return st.one_of(plain, acting, acting)
+
+
+def reentrant_grid_cases():
+    """One name is mapped, then ends (timer, or <error>); from inside that 'expired' call - or from inside the
+    first 'added' call - the listener feeds the next line for the same or another name; a second listener,
+    added before or during, only looks.  Observed before/after every expiry involved."""
+    feeds = [None,
+             {"do": "map", "name": None, "addr": 1, "exp": 3600, "form": "new"},
+             {"do": "map", "name": None, "addr": 0, "exp": None, "form": "new"},
+             {"do": "map", "name": None, "addr": 0, "exp": 2 * DAY + 9, "form": "utc3"},
+             {"do": "map", "name": None, "addr": 2, "exp": -30, "form": "new"},
+             {"do": "map", "name": 1, "addr": 0, "exp": 50, "form": "new"},
+             {"do": "err", "name": None, "exp": 60, "form": "new"},
+             {"do": "err", "name": 1, "exp": 60, "form": "new"},
+             {"do": "add", "j": 1}]
+    for o1 in (30, DAY + 30, None):
+        for ending in ("timer", "error"):
+            if o1 is None and ending == "timer":
+                continue
+            for at in ("added", "expired"):
+                for fd in feeds:
+                    for second in ("none", "before", "step"):
+                        behav = ["ok", "ok"]
+                        if fd is not None:
+                            behav[0 if at == "added" else 1] = fd
+                        elif at == "added" or second != "none":
+                            continue
+                        steps = []
+                        if second == "before":
+                            steps.append({"op": "listen", "j": 1})
+                        steps.append({"op": "map", "name": 0, "addr": 0, "exp": o1, "form": "new", "cached": False})
+                        if second == "step":
+                            steps.append({"op": "listen", "j": 1})
+                        if ending == "timer":
+                            steps.append({"op": "adv", "dt": (o1 or 0) + 3})
+                        else:
+                            steps.append({"op": "adv", "dt": 5})
+                            steps.append({"op": "err", "name": 0, "exp": 60, "form": "new"})
+                        for dt in (40, 20, 3600, 2 * DAY):
+                            steps.append({"op": "adv", "dt": dt})
+                        yield {"epoch": 1767225600 - 7200, "frac": 0, "zone": 60, "boot": [], "steps": steps,
+                               "listeners": [{"behav": behav}, {"behav": []}]}
 
 
 def grid_cases():
@@ -814,9 +1180,11 @@ MANIFEST = {
             "-1 h to +10 days, interleaved with clock advances (free, and aimed a few seconds before/after a pending "
             "expiry), run against the real AddrMap (update/find/listeners) and against a bootstrapped TorState "
             "(GETINFO address-mappings/all + 650 ADDRMAP events) under a deterministic task.Clock that also drives "
-            "the module's utcnow(); after every step every name, every address and '<error>' are looked up and the "
-            "listener log is compared with an independent reference map; plus an enumerated two-event grid around "
-            "every announced expiry.  Finds counterexamples; does not prove absence.",
+            "the module's utcnow(); listeners act from inside their callbacks (look everything up, feed the next line "
+            "for the same or another name, add a listener); after every step and inside every listener call every "
+            "name, every address and '<error>' are looked up and the calls are compared with an independent reference "
+            "map kept call by call; plus enumerated grids (two events around every announced expiry; re-entrant feeds "
+            "at every ending).  Finds counterexamples; does not prove absence.",
     "note": "Trusted: the reference map and the line formatter in props/c20.py, twisted's task.Clock, the time stand-in "
             "(txtorcon.addrmap.datetime replaced per case).  +-1 s guard band around each expiry; oracle latitude "
             "listed in ASSUMPTIONS.",
@@ -829,10 +1197,11 @@ def run(ctx):
     ctx.search("direct", cases(), quick=2200, thorough=20000)
     ctx.search("torstate", cases(), quick=500, thorough=5000)
     ctx.enumerate("direct", grid_cases(), name="two-event-grid", exhaustive=True)
+    ctx.enumerate("direct", reentrant_grid_cases(), name="reentrant-grid", exhaustive=True)
+    ctx.enumerate("torstate", reentrant_grid_cases(), name="reentrant-grid-torstate", exhaustive=True)
 
 
-# Written against txtorcon/addrmap.py *with the C20 fix patches applied* (out/fixes/C20-*.diff): on the
-# unpatched file the check already exits 1, so mutating it would show nothing.
+# Written against txtorcon/addrmap.py with the C20 fixes (fixes/C20-*.diff, committed in /repo).
 MUTANTS = [
     ("seconds-field-instead-of-total", "txtorcon/addrmap.py",
      "delay = (self.expires - self.created).total_seconds()", "delay = (self.expires - self.created).seconds"),
@@ -863,6 +1232,24 @@ MUTANTS = [
      "        if newip == '<error>':", "        if False:"),
     ("address-not-replaced", "txtorcon/addrmap.py",
      "        self.ip = newip\n", "        self.ip = self.ip or newip\n"),
+    # re-entrancy: what a listener sees and does from inside its callbacks
+    ("expired-notified-before-removal", "txtorcon/addrmap.py",
+     "        del self.map.addr[self.name]\n        self._forget_address()\n"
+     "        self.map.notify(\"addrmap_expired\", *[self.name], **{})\n",
+     "        self.map.notify(\"addrmap_expired\", *[self.name], **{})\n"
+     "        del self.map.addr[self.name]\n        self._forget_address()\n"),
+    ("address-key-dropped-after-notify", "txtorcon/addrmap.py",
+     "        self._forget_address()\n        self.map.notify(\"addrmap_expired\", *[self.name], **{})\n",
+     "        self.map.notify(\"addrmap_expired\", *[self.name], **{})\n        self._forget_address()\n"),
+    ("added-notified-before-insert", "txtorcon/addrmap.py",
+     "            self.addr[params[0]] = a\n            self.addr[params[1]] = a\n"
+     "            a.update(*params)\n            self.notify(\"addrmap_added\", *[a], **{})\n",
+     "            a.update(*params)\n            self.notify(\"addrmap_added\", *[a], **{})\n"
+     "            self.addr[params[0]] = a\n            self.addr[params[1]] = a\n"),
+    ("only-first-listener-notified", "txtorcon/addrmap.py",
+     "        for listener in self.listeners:", "        for listener in self.listeners[:1]:"),
+    ("listener-registered-twice", "txtorcon/addrmap.py",
+     "        if listener not in self.listeners:", "        if True:"),
     ("added-not-notified", "txtorcon/addrmap.py",
      "            self.notify(\"addrmap_added\", *[a], **{})", "            pass"),
 ]
